@@ -76,6 +76,11 @@ pub fn lock() -> packed::Script {
 }
 
 pub fn consensus(p: &Params) -> Consensus {
+    consensus_with(p, DIFF_TWO)
+}
+
+/// Same as `consensus` with a chosen genesis (= epoch 0) compact target, i.e. per-block difficulty.
+pub fn consensus_with(p: &Params, genesis_compact_target: u32) -> Consensus {
     let always_success_script = lock();
     let tx = create_always_success_tx();
     let transactions: Vec<TransactionView> = (0..p.genesis_cells as u64)
@@ -93,14 +98,14 @@ pub fn consensus(p: &Params) -> Consensus {
     let dao = genesis_dao_data(all).unwrap();
     let genesis_block = BlockBuilder::default()
         .dao(dao)
-        .compact_target(DIFF_TWO)
+        .compact_target(genesis_compact_target)
         .timestamp(GENESIS_TS)
         .transaction(tx)
         .transactions(transactions)
         .build();
     let epoch_ext = build_genesis_epoch_ext(
         Capacity::shannons(p.epoch_reward_ckb * 100_000_000),
-        DIFF_TWO,
+        genesis_compact_target,
         p.epoch_len,
         8 * p.epoch_len,
         (1, 40),
